@@ -171,6 +171,19 @@ def closefail_cases():
     return out
 
 
+def counter_cases():
+    """C10: promotions set the counter to the source's value, which may be lower or higher than the own one;
+    writes before and after, with and without reopen in between"""
+    out = []
+    base = [E("create"), E("open"), E("setmode", mode="RW")] + [E("write", id=i) for i in range(1, 6)]
+    for v in (2, 6, 40):
+        for mid in ([], [E("close"), E("open"), E("setmode", mode="RW")], [E("crash"), E("open"), E("setmode", mode="RW")], [E("reload")]):
+            out.append(base + [E("setrev", v=v), E("write", id=10)] + mid + [E("write", id=11), E("setrev", v=v + 3), E("write", id=12),
+                                                                            E("setmode", mode="WO"), E("write", id=13), E("setrev", v=1),
+                                                                            E("setmode", mode="RW"), E("setrev", v=1), E("write", id=14)])
+    return out
+
+
 def attach_cases():
     base = [E("create")]
     return [
